@@ -14,6 +14,8 @@
 //           F<n>   the highest finalised number becomes n
 //           M<who>.<i>.<best>   FullSyncStrategy.OnBlockAnnounce(peer <who>, announce of header i)
 //                  while BestBlockHeader() has number <best> (not paused, not flagged best block)
+//           N<n>.<best>.<target>   FullSyncStrategy.NextActions() with numOfTasks = n, best block number
+//                  <best>, peer target <target> (no peer views)
 //           P<r>+<r>+...   FullSyncStrategy.Process(results); a result <r> is
 //                  <who>:<completed 0|1>:<requested fields>:<direction>:<blocks>
 //                  <blocks> "-" or ','-separated `S/H/f`: stated hash S (header id, or u<k> = a hash
@@ -25,6 +27,8 @@
 // neither an ancestor nor a descendant of the finalised one; K<i> stores header i with its parent
 // link; F steps are not used. The importer double then reports p<S> instead of o<S> when the missing
 // parent had been stored before (pruned since).
+// N gives  t;<requests taken from the queue>;<ascending requests start:max,...>;<queue afterwards>
+//   (an ascending request is by number, ascending, bootstrap fields; anything else prints "bad")
 // observed: one entry per step, '|'-separated; A/K/F/Z give "."; M gives
 //   m;<reputation change>;<incomplete>;<queue>   (reputation change "-" when none is returned;
 //   code 4 bad block announcement + errBadBlockReceived, 5 not relevant, 6 gossip success); P gives
@@ -308,6 +312,60 @@ func (w *c32World) incompleteAndQueue(f *FullSyncStrategy) (string, string) {
 	return c32Join(inc, ","), c32Join(q, ",")
 }
 
+func (w *c32World) reqName(r *messages.BlockRequestMessage) string {
+	h, ok := r.StartingBlock.RawValue().(common.Hash)
+	switch {
+	case ok && r.Direction == messages.Descending && r.Max != nil && *r.Max == messages.MaxBlocksInResponse &&
+		r.RequestedData == messages.BootstrapRequestData:
+		return w.name(h)
+	case ok && r.Direction == messages.Ascending && r.Max != nil && *r.Max == 1 &&
+		r.RequestedData == messages.RequestedDataBody+messages.RequestedDataJustification:
+		return "~" + w.name(h)
+	}
+	return "bad"
+}
+
+func (w *c32World) nextActions(f *FullSyncStrategy, arg string) (out string, panicked bool) {
+	p := strings.Split(arg, ".")
+	f.numOfTasks = int(vu.UnX(p[0]))
+	w.st.best = uint(vu.UnX(p[1]))
+	f.peers.target = uint32(vu.UnX(p[2]))
+	qlen := f.requestQueue.Len()
+	var tasks []*SyncTask
+	var err error
+	func() {
+		defer func() {
+			if r := recover(); r != nil {
+				panicked = true
+			}
+		}()
+		tasks, err = f.NextActions()
+	}()
+	if panicked {
+		return "panic", true
+	}
+	if err != nil {
+		return "t;err", false
+	}
+	taken := qlen - f.requestQueue.Len()
+	var fromQ, asc []string
+	for i, t := range tasks {
+		r := t.request.(*messages.BlockRequestMessage)
+		if i < taken {
+			fromQ = append(fromQ, w.reqName(r))
+			continue
+		}
+		n, ok := r.StartingBlock.RawValue().(uint)
+		if ok && r.Direction == messages.Ascending && r.Max != nil && r.RequestedData == messages.BootstrapRequestData {
+			asc = append(asc, fmt.Sprintf("%x:%x", n, *r.Max))
+		} else {
+			asc = append(asc, "bad")
+		}
+	}
+	_, q := w.incompleteAndQueue(f)
+	return "t;" + c32Join(fromQ, ",") + ";" + c32Join(asc, ",") + ";" + q, false
+}
+
 func (w *c32World) announce(f *FullSyncStrategy, arg string) (out string, panicked bool) {
 	p := strings.Split(arg, ".")
 	src := w.headers[vu.UnX(p[1])]
@@ -476,6 +534,12 @@ func c32Run(in string) string {
 		case 'F':
 			w.st.finalised = uint(vu.UnX(step[1:]))
 			obs = append(obs, ".")
+		case 'N':
+			o, panicked := w.nextActions(f, step[1:])
+			obs = append(obs, o)
+			if panicked {
+				return strings.Join(obs, "|")
+			}
 		case 'M':
 			o, panicked := w.announce(f, step[1:])
 			obs = append(obs, o)
@@ -734,6 +798,14 @@ func c32GenCase(r *vu.RNG, prune bool) string {
 			}
 		}
 		steps = append(steps, "P"+strings.Join(results, "+"))
+		if !prune && r.Chance(1, 3) {
+			best := uint64(r.Intn(300))
+			target := best + uint64(r.Intn(5))*uint64(r.Range(1, 130))
+			if r.Chance(1, 5) {
+				target = uint64(r.Intn(int(best) + 1))
+			}
+			steps = append(steps, fmt.Sprintf("N%x.%x.%x", r.Range(0, 4), best, target))
+		}
 		if r.Chance(1, 8) {
 			if prune {
 				steps = append(steps, fmt.Sprintf("Z%x", r.Range(1, g.genuine)))
